@@ -103,9 +103,12 @@ def replay_file(path):
             if len(r["events"] or []) > len(ff.get(c["entry"], [])):
                 ff[c["entry"]] = r["events"]
         cell = rf["cell"]
-        rr = c11.run_bubbles(sc, testbin, dict(job, replay=cell), 1)
-        found = ["%s:%s:%s" % (cls, sd, cell["failure"]["id"]) for cls, sd, _ in c11.judge(rr[0], ff.get(cell["entry"]), sc.census["operations"], None)]
-        again = want["sig"] in found
+        for _ in range(6 if sc.census.get("selects") else 1):
+            rr = c11.run_bubbles(sc, testbin, dict(job, replay=cell), 1)
+            found = ["%s:%s:%s" % (cls, sd, cell["failure"]["id"]) for cls, sd, _ in c11.judge(rr[0], ff.get(cell["entry"]), sc.census["operations"], None)]
+            again = want["sig"] in found
+            if again:
+                break
         detail = "events=%s returned=%s closed=%s deadlock=%s found=%s" % (rr[0]["events"], rr[0].get("returned"), rr[0].get("closed"), rr[0].get("deadlock"), found)
     else:
         raise HarnessError("unknown replay file kind: property=%s engine=%s" % (prop, eng))
